@@ -1882,6 +1882,7 @@ func ruleKindConst(c *Ctx) []Obligation {
 			// does this fresh entry reach RPCEntry.Input / Output (here, or as an argument of a callee that stores
 			// its parameter there)?
 			slot := ""
+			slots := map[string]bool{}
 			var reach func(v ssa.Value, f2 *ssa.Function, depth int)
 			reach = func(v ssa.Value, f2 *ssa.Function, depth int) {
 				if depth > 2 || v.Referrers() == nil {
@@ -1892,9 +1893,13 @@ func ruleKindConst(c *Ctx) []Obligation {
 					case *ssa.Store:
 						if x.Val == v {
 							if _, f, _ := fieldOf(x.Addr); f == m.fIn {
+								slots["Input"] = true
 								slot = "Input"
-							} else if f == m.fOut && slot == "" {
-								slot = "Output"
+							} else if f == m.fOut {
+								slots["Output"] = true
+								if slot == "" {
+									slot = "Output"
+								}
 							}
 						}
 					case ssa.CallInstruction:
@@ -1922,7 +1927,7 @@ func ruleKindConst(c *Ctx) []Obligation {
 					if _, f, _ := fieldOf(fa); f == fKind {
 						for _, rr := range *fa.Referrers() {
 							if st, isS := rr.(*ssa.Store); isS && st.Addr == ssa.Value(fa) {
-								if kv, okk := constInt(st.Val); okk && (kindName[kv] == "InputEntry" || kindName[kv] == "OutputEntry") {
+								if kv, okk := constInt(st.Val); okk && (kindName[kv] == "InputEntry" && slots["Input"] || kindName[kv] == "OutputEntry" && slots["Output"]) {
 									kindSet = true
 								}
 							}
